@@ -9,6 +9,8 @@ from and is ordinary.
 -/
 import TonVerif.Proofs.VmStack
 import TonVerif.Proofs.VmStackInv
+import TonVerif.Proofs.SrcArith2
+import TonVerif.Generated.VmStackTests
 namespace TonVerif.C17
 open TonVerif TonVerif.Model TonVerif.Model.Vm TonVerif.Spec.Vm TonVerif.Proofs.Vm
 
@@ -179,5 +181,43 @@ theorem c17_roundtrip_fields (L : Laws mk view ord) :
 /-- the hypotheses are met: −2^63 is stored as int64 and read back; a partly consumed slice goes through VmCellSlice -/
 example : run (BOp.storeInt (-(2 ^ 63)) 64) (Builder.empty : Builder Cell) ≠ none := by decide +kernel
 example : (serCellSlice mkTree [true, false, true] [Cell.mk (-1) [] []]).isSome = true := by decide +kernel
+
+/-! ## Source-regenerated tests (`Generated/VmStackTests.lean`: re-translated from tlb/vm_stack.py on every run)
+
+`Generated.tinyIntFits value` is the test `-2**63 <= value < 2**63` that selects `vm_stk_tinyint` in
+`VmStackValue.serialize`; `cellSliceBitsBad` / `cellSliceRefsBad` are the two `if not a <= b: raise VmError` tests of
+`VmCellSlice.deserialize`. -/
+section Src
+open TonVerif.Proofs.SrcArith2
+set_option linter.unusedSimpArgs false
+
+/-- for EVERY integer: the source chooses the 64-bit form exactly for the int64 range (both bounds: −2^63 in, 2^63 out), and
+the cell-slice window tests refuse exactly the inverted windows. -/
+theorem c17_src_tests (v : Int) (a b : Nat) :
+    (Generated.tinyIntFits_sideOk v ∧ Generated.cellSliceBitsBad_sideOk a b ∧ Generated.cellSliceRefsBad_sideOk a b) ∧
+    Generated.tinyIntFits v = decide (-(2 ^ 63 : Int) ≤ v ∧ v < (2 ^ 63 : Int)) ∧
+    Generated.cellSliceBitsBad a b = decide (¬ a ≤ b) ∧ Generated.cellSliceRefsBad a b = decide (¬ a ≤ b) := by
+  refine ⟨⟨by simp only [Generated.tinyIntFits_sideOk] <;> src_prop, by simp only [Generated.cellSliceBitsBad_sideOk] <;> src_prop,
+    by simp only [Generated.cellSliceRefsBad_sideOk] <;> src_prop⟩, ?_, ?_, ?_⟩
+  · simp only [Generated.tinyIntFits] <;> src_bool
+  · simp only [Generated.cellSliceBitsBad] <;> src_bool
+  · simp only [Generated.cellSliceRefsBad] <;> src_bool
+
+/-- `VmStackValue.serialize` of the hand model (what `c17_roundtrip` … are proved about) chooses between `vm_stk_tinyint`
+and `vm_stk_int` by exactly the regenerated test. -/
+theorem c17_src_model_int {R : Type} (mk : Bits → List R → Option R) (v : Int) :
+    serVal mk (.int v) =
+      (if Generated.tinyIntFits v then build mk (BOp.storeBytes [1] ⊳ BOp.storeInt v 64)
+       else build mk (BOp.storeBits tagInt257 ⊳ BOp.storeInt v 257)) := by
+  rw [(c17_src_tests v 0 0).2.1]
+  rw [serVal]
+  by_cases h : -(2 ^ 63 : Int) ≤ v ∧ v < (2 ^ 63 : Int) <;> simp [h]
+
+/-- the regenerated test on both sides of both bounds. -/
+example : Generated.tinyIntFits (-(2 ^ 63)) = true ∧ Generated.tinyIntFits (-(2 ^ 63) - 1) = false ∧
+    Generated.tinyIntFits (2 ^ 63 - 1) = true ∧ Generated.tinyIntFits (2 ^ 63) = false ∧
+    Generated.cellSliceBitsBad 3 2 = true ∧ Generated.cellSliceBitsBad 2 2 = false := by decide
+
+end Src
 
 end TonVerif.C17
